@@ -374,7 +374,45 @@ def r19_7(ctx: Ctx) -> None:
     c04.r04_8(ctx, rule="R19.7")
 
 
+def r19_8(ctx: Ctx) -> None:
+    """what the CLI owes its progress reporter: (a) `x` closes the archive after extraction on every path (closing waits for the reporter;
+    otherwise the lines still queued die with the daemon thread and `x --verbose` lists fewer members than it extracted); (b) the CLI's
+    callback does not divide by the archive's total size unless it is known to be positive (an archive of empty members has total 0: the
+    reporter thread would die at the first member with ZeroDivisionError, exit status still 0)."""
+    f = _cli(ctx, "run_extract")
+    cfg = cfg_of(f.node)
+    ex = [c for c in q.calls(f) if attr_tail(c) == "extractall"]
+    ctx.floor("R19.8", len(ex), 1, "extractall calls in run_extract")
+    closes = [c for c in q.calls(f) if attr_tail(c) == "close"]
+    in_with = any(isinstance(w, ast.With) and any(e in list(ast.walk(st)) for st in w.body for e in ex) and
+                  any(isinstance(i.context_expr, ast.Call) and attr_tail(i.context_expr) == "SevenZipFile" or isinstance(i.context_expr, ast.Name) for i in w.items) for w in walk(f.node))
+    in_finally = any(isinstance(t, ast.Try) and any(c in list(ast.walk(st)) for st in t.finalbody for c in closes) and
+                     all(any(e in list(ast.walk(st)) for st in t.body) for e in ex) for t in walk(f.node))
+    ctx.check(in_with or in_finally, "R19.8", f, ex[0], "`x` closes the archive after extraction (finally / with)",
+              "run_extract never closes the archive: close() is what waits for the progress reporter, so with --verbose the lines still queued when extractall() returns are lost "
+              "at interpreter exit (1500 members extracted, 817 listed, exit status 0)", construct="run_extract close")
+    cb = ctx.prog.cls("CliExtractCallback", "cli")
+    n = 0
+    for m in cb.methods.values():
+        for d in [x for x in walk(m.node) if isinstance(x, ast.BinOp) and isinstance(x.op, (ast.Div, ast.FloorDiv, ast.Mod)) and isinstance(x.right, ast.Attribute)]:
+            n += 1
+            from ..model import parent_map
+            pm = parent_map(m.node)
+            guarded = any(isinstance(cd, ast.Compare) and norm(x.right if False else d.right) in norm(cd) for cd, pol in q.facts_at(m, d))
+            cur = d
+            while cur in pm and not guarded:
+                par = pm[cur]
+                if isinstance(par, ast.IfExp) and par.body is cur and norm(d.right) in norm(par.test):
+                    guarded = True
+                cur = par
+            ctx.check(guarded, "R19.8", m, d, f"{m.qname}: division by `{norm(d.right)}` only where it is known to be positive",
+                      f"`{norm(d)}` divides by the archive's total size, which is 0 for an archive whose members are all empty: the reporter thread dies with ZeroDivisionError at the "
+                      "first member, the other members are not reported and the exit status is still 0", construct=f"division by {norm(d.right)}")
+    ctx.floor("R19.8", n, 1, "divisions by a stored total in the CLI callback")
+
+
 def run(ctx: Ctx) -> None:
+    r19_8(ctx)
     r19_7(ctx)
     r19_5(ctx)
     c04.r04_7(ctx)
